@@ -300,7 +300,8 @@ pub struct BuildDump {
     pub desc: Option<String>,
     pub depfile: Option<String>,
     pub parse_showincludes: bool,
-    pub rspfile: Option<(String, String)>,
+    /// (path as raw bytes, content)
+    pub rspfile: Option<(Vec<u8>, String)>,
     pub pool: Option<String>,
     pub hide_success: bool,
     pub hide_progress: bool,
@@ -386,7 +387,10 @@ impl Session {
                     rspfile: b
                         .rspfile
                         .as_ref()
-                        .map(|r| (r.path.to_string_lossy().into_owned(), r.content.clone())),
+                        .map(|r| {
+                            use std::os::unix::ffi::OsStrExt;
+                            (r.path.as_os_str().as_bytes().to_vec(), r.content.clone())
+                        }),
                     pool: b.pool.clone(),
                     hide_success: b.hide_success,
                     hide_progress: b.hide_progress,
